@@ -7,7 +7,7 @@ import casadi as ca
 from .. import oracles as O
 from ..caseval import Ev
 from ..groups import base_specs, product_specs, ProductSpec, SO3Spec, extra_euler_specs, SO3S, RnSpec, SE2Spec, SE3Spec
-from .lie_common import (inplace_history, lib_call, mrp_product_ok, euler_ok, group_corpus, run_contract_slice,
+from .lie_common import (inplace_history, sparse_param_form, lib_call, mrp_product_ok, euler_ok, group_corpus, run_contract_slice,
                          configs_for_shard)
 
 SHARDS = {"quick": 14, "thorough": 16}
@@ -50,6 +50,7 @@ def run(ctx):
         construction_history(ctx)
     if ctx.shard == 3 % ctx.nshards:
         inplace_history(ctx, base_specs() + product_specs(cfg_rng, "quick")[:3], 4 if ctx.quick else 40, ops=("to_Matrix", "product", "inverse", "identity"))
+        sparse_param_form(ctx, base_specs() + product_specs(cfg_rng, "quick")[:3], ops=("to_Matrix", "product", "inverse", "identity"))
     ctx.require("product:SO3Quat") if any(s.name == "SO3Quat" for s in mine) else None
 
 
